@@ -59,6 +59,17 @@ CLAIMS["C19"] = dict(
   text="Decides agreement of the escape writer's table with the unescape reader's cases (same rune, same consumed length), the hex fallback's verb/bound/composition, that numeric reader cases consume the digits they decode, that dumps escape what they print and spell booleans as the parser reads them. Round-trip equality for all strings is value-level and not decided.",
   ref="§5 C19")
 
+CLAIMS["C06"] = dict(
+  level="other",
+  technique="static analysis: effect reachability over the VTA call graph against an inventory of primitive core.Line writes (with fresh-receiver and constant-parameter refinement), must-pass-through and only-writer checks",
+  text="For the movement/copy clause the check is sufficient: none of the 51 tabled commands can reach a primitive write to a shared core.Line except reviewed (command, site) pairs, so they cannot change the text (modulo call-graph soundness, inventoried). Also decides the post-command cursor check, the API clamps' presence, and that the returned line is the buffer at acceptance. It does not decide 0<=pos<=len for all command sequences.",
+  ref="§5 C06")
+CLAIMS["C09"] = dict(
+  level="other",
+  technique="static analysis: effect reachability (navigation commands vs history writers), sibling agreement of GetLine bounds guards, error-guard facts at call sites, backward value slices into Line.Set",
+  text="Sufficient for 'never modifies them': no navigation/search command can reach a history writer. Decides that every GetLine implementation is total and every call site checks the error before using the line, that the buffer only ever receives stored entries or saved states, and that Walk saves/restores the in-progress text. Order of entries and matching semantics are not decided.",
+  ref="§5 C09")
+
 NA_REASONS = {
  "C15": "Cycle coverage is arithmetic over a grid whose shape is computed at run time from candidate widths and terminal width; no pairing/ownership/ordering/table clause is a necessary condition, and a bounds proof of rows[y][x] needs the same run-time shape invariants. A check would be a brittle proxy (DESIGN.md §5 C15, §8).",
 }
